@@ -2,6 +2,7 @@ package main
 
 import (
 	"fmt"
+	"go/token"
 	"go/types"
 	"sort"
 	"strings"
@@ -843,6 +844,46 @@ func runSCOPE(c *Ctx, r *Result, rule string) {
 				for _, ref := range *fa.Referrers() {
 					if stv, ok := ref.(*ssa.Store); ok && stv.Addr == ssa.Value(fa) {
 						kind = "write"
+						// the frame is linked to the environment it is created in, not to one
+						// found by walking that environment's own chain (skipping frames that are
+						// empty now but bind names later cuts closures off from those names)
+						isLink := func(a *ssa.FieldAddr) bool {
+							pp, ok := a.X.Type().Underlying().(*types.Pointer)
+							if !ok {
+								return false
+							}
+							st2, ok := pp.Elem().Underlying().(*types.Struct)
+							if !ok {
+								return false
+							}
+							pt2, ok := st2.Field(a.Field).Type().(*types.Pointer)
+							return ok && types.Identical(pt2.Elem(), pp.Elem())
+						}
+						seen := map[ssa.Value]bool{}
+						var walked func(v ssa.Value) bool
+						walked = func(v ssa.Value) bool {
+							if seen[v] {
+								return false
+							}
+							seen[v] = true
+							switch x := v.(type) {
+							case *ssa.Phi:
+								for _, e := range x.Edges {
+									if walked(e) {
+										return true
+									}
+								}
+							case *ssa.UnOp:
+								if a, isFA := x.X.(*ssa.FieldAddr); isFA && x.Op == token.MUL && isLink(a) {
+									return true
+								}
+							}
+							return false
+						}
+						if walked(stv.Val) {
+							okUsers = false
+							us = append(us, shortFn(f)+"(links the new frame to an ancestor found by walking the chain)")
+						}
 					}
 				}
 			}
